@@ -162,22 +162,29 @@ def from_xyz(ctx, prog, rule):
             col, ty = None, None
             if v[0] == "call" and v[1].endswith("::parse"):
                 ty = v[4][-1] if len(v) > 4 and v[4] else None
-                src = strip(v[2][0])
-                if src[0] == "call" and src[1].endswith("::index"):
-                    col = const_val(src[2][1])
+                import elems
+                import bytesview
+                e_ = elems.elem_of(v[2][0])
+                if e_ is not None and not e_[1] and e_[2][0] == "idx":
+                    col = bytesview.const_eval(e_[2][1])
             desc.append((variant, col, ty, casted))
             want = ("Single", i, "f32", None) if i < 3 else ("Integer", i, "u8", "i64")
             okv = okv and (variant, col, ty, casted) == want
     ctx.ob(rule, "columns/from-xyz", okv, "point values (variant, column, parse type, cast): %s (must be Single<-f32 columns 0,1,2 and Integer<-u8 as i64 columns 3,4,5)" % desc)
     # guard: lines with fewer than 6 columns are skipped
     okg = False
+
+    def is_len(x):
+        x = strip(x)
+        return (x[0] == "call" and x[1].endswith("::len")) or (x[0] == "unop" and x[1] == "PtrMetadata")
+    adds = [bi for bi, t in m.calls(lambda c, t: c.endswith("PointCloudWriter::<'a, T>::add_point"))]
     for bi in m.cfg():
-        t = m.blocks[bi]["term"]
-        if t["k"] == "switch":
-            dl = op_place(t["discr"])
-            d = strip(R.place(dl)) if dl else None
-            if d and d[0] == "binop" and d[1] in ("Ge", "Lt", "Gt", "Le") and const_val(d[3]) in (6, 5) and strip(d[2])[0] == "call" and strip(d[2])[1].endswith("::len"):
-                okg = True
+        ot = order_test(m, R, bi)
+        s_ok = succ_when_at_least(ot, is_len, 6) if ot is not None else None
+        if s_ok is not None and adds:
+            # points are only added on the "at least six columns" side
+            g2 = cfg_without_edges(m, {(bi, s_ok)})
+            okg = okg or not any(a in reach(g2, [0]) for a in adds)
     ctx.ob(rule, "short-lines/from-xyz", okg, "lines with fewer than six columns are skipped by a length test")
     # the line buffer is cleared on every iteration of the read loop
     loops = natural_loops(m)
@@ -285,7 +292,10 @@ def unpack(ctx, prog, rule):
                     for y in leaves(x[2][0]):
                         toks = xmlgen._format_tokens(f.path, y) if y[0] == "call" else None
                         if toks:
-                            sig = "".join(tk[1] if tk[0] == "lit" else "{%s}" % tree_str(strip_deep(tk[1]))[:80] for tk in toks)
+                            def sig_of(tl):
+                                return "".join(tk[1] if tk[0] == "lit" else "(%s)" % "|".join(sorted(sig_of(a) for a in tk[1])) if tk[0] == "alt"
+                                               else "{%s}" % tree_str(strip_deep(tk[1]))[:80] for tk in tl)
+                            sig = sig_of(toks)
                             break
                     break
             names.append((short(p), f.file_line(bi), sig))
